@@ -333,7 +333,7 @@ pub fn fuzz(f: &mut FuzzIn) -> Option<CaseResult> {
         }
         1 => {
             let (q, input) = f.raw_q_input();
-            if input.len() > 120 {
+            if input.len() > 64 {
                 return None;
             }
             let text = std::str::from_utf8(input).ok()?.to_string();
